@@ -3203,8 +3203,11 @@ class EntityFixup(MutableMapping[str, str]):
             return default
 
     def copy_values(self) -> list[FixupValue]:
-        """Generate a list that can be passed to the constructor."""
-        return list(self._fixup.values())
+        """Generate a list that can be passed to the constructor.
+
+        The values are copied, so the new fixup table does not share them with this one.
+        """
+        return [FixupValue(fix.var, fix.value, fix.id) for fix in self._fixup.values()]
 
     def __copy__(self) -> 'EntityFixup':
         fix = EntityFixup.__new__(EntityFixup)
